@@ -826,4 +826,480 @@ theorem valid_closed' {v : Variant} {L W : Nat} {b : Board} (hb : BoardOK L W b)
   all_goals simp_all [Valid]
 end Bisim2
 
+section Sizes
+variable {α : Type} [Sub α] [OfNat α 0] [OfNat α 1]
+
+theorem genGame_finals (v : Variant) (L W : Nat) (b : Board) (q : Params α) :
+    (genGame v L W b q).finals = [enc v L W .win] := by
+  cases v <;> simp [genGame, gameA, gameB, gameC] <;> omega
+
+theorem genGame_tl_length {v : Variant} {L W : Nat} {b : Board} (hb : BoardOK L W b)
+    (q : Params α) : (genGame v L W b q).tl.length = nGroups v * (L * W) + 2 := by
+  have hmv := hb.2.2.2.2.2.2.2.2
+  cases v
+  · simp only [genGame]; rw [gameA_tl hmv, gridGroups_length]; rfl
+  · simp only [genGame]; rw [gameB_tl hmv, gridGroups_length]; rfl
+  · simp only [genGame]; rw [gameC_tl hmv, gridGroups_length]; rfl
+
+theorem genGame_owners_length (v : Variant) (L W : Nat) (b : Board) (q : Params α) :
+    (genGame v L W b q).owners.length = nGroups v * (L * W) + 2 := by
+  cases v <;> simp [genGame, gameA, gameB, gameC, nGroups] <;> omega
+
+theorem genGame_rewards_length {v : Variant} {L W : Nat} {b : Board} (hb : BoardOK L W b)
+    (q : Params α) : (genGame v L W b q).rewards.length = nGroups v * (L * W) + 2 := by
+  cases v <;> simp [genGame, gameA, gameB, gameC, nGroups, flatRewards_length hb] <;> omega
+
+theorem tl_bisim {v : Variant} {L W : Nat} {b : Board} (hb : BoardOK L W b) (q : Params α)
+    (s : RState) (hs : Valid v L W b s) :
+    (genGame v L W b q).tl.getD (enc v L W s) []
+      = (rules v L W b q s).map
+          (fun x => ({ act := x.act, p := x.p, tgt := enc v L W x.tgt } : Tr α)) := by
+  cases v
+  · exact tl_bisim_A hb q s hs
+  · exact tl_bisim_B hb q s hs
+  · exact tl_bisim_C hb q s hs
+
+end Sizes
+
+/-! ### the solver's typed validation -/
+
+section Validate
+variable {α : Type} [LT α] [DecidableLT α] [OfNat α 0]
+
+theorem checkGame_ok (g : Game α) (h1 : g.tl.size = g.owners.size)
+    (h2 : g.rewards.size = g.owners.size) (h3 : 0 < g.rewards.size)
+    (h4 : ∀ x ∈ g.rewards, ¬ x < 0) (h5 : g.finals ≠ [])
+    (h6 : ∀ f ∈ g.finals, f < g.owners.size) : checkGame g = .ok () := by
+  have ha : anyNeg g.rewards = some false := by
+    unfold anyNeg
+    rw [if_neg (by omega)]
+    congr 1
+    rw [Array.any_eq_false]
+    intro i hi
+    simpa using h4 _ (Array.getElem_mem hi)
+  have hf : g.finals.isEmpty = false := by
+    cases hfin : g.finals with
+    | nil => exact absurd hfin h5
+    | cons x xs => rfl
+  have hr : (g.finals.any fun f => decide (f ≥ g.owners.size)) = false := by
+    rw [List.any_eq_false]
+    intro f hf
+    simpa using h6 f hf
+  unfold checkGame
+  simp only [ha, hf, hr, h1, h2, ne_eq, not_true_eq_false, if_false, Bool.false_eq_true]
+  rfl
+
+theorem forIn_check_ok {β : Type} (cnd : β → Bool) (e : Err) :
+    ∀ (l : List β), (∀ x ∈ l, cnd x = false) →
+      forIn (m := Except Err) l PUnit.unit (fun row _ =>
+        if cnd row = true then do
+          throw e
+          pure (ForInStep.yield PUnit.unit)
+        else pure (ForInStep.yield PUnit.unit)) = pure PUnit.unit
+  | [], _ => rfl
+  | x :: l, h => by
+    rw [List.forIn_cons, h x (by simp)]
+    simp only [Bool.false_eq_true, if_false]
+    exact forIn_check_ok cnd e l (fun y hy => h y (by simp [hy]))
+
+omit [LT α] [DecidableLT α] [OfNat α 0] in
+theorem initStates_ok (g : Game α)
+    (h : ∀ row ∈ g.tl, row ≠ [] ∧ ∀ t ∈ row, t.tgt < g.owners.size) :
+    initStates g = .ok () := by
+  have hl : ∀ row ∈ g.tl.toList, (row.any fun t => decide (t.tgt ≥ g.owners.size)) = false := by
+    intro row hrow
+    rw [List.any_eq_false]
+    intro t ht
+    simpa using (h row (by simpa using hrow)).2 t ht
+  have he : (g.tl.any fun row => row.isEmpty) = false := by
+    rw [Array.any_eq_false]
+    intro i hi
+    have := (h _ (Array.getElem_mem hi)).1
+    simpa using this
+  unfold initStates
+  simp only [he, Bool.false_eq_true, if_false]
+  rw [← Array.forIn_toList, forIn_check_ok _ _ _ hl]
+  rfl
+end Validate
+
+/-! ### all rows of the generated games (C11) -/
+
+theorem mem_gridGroups {β : Type} {L W : Nat} {fs : List (Nat → Nat → β)} {tail : List β}
+    {y : β} :
+    y ∈ (fs.map (grid L W)).flatten ++ tail
+      ↔ (∃ f ∈ fs, ∃ i, i < L ∧ ∃ j, j < W ∧ y = f i j) ∨ y ∈ tail := by
+  simp only [List.mem_append, List.mem_flatten, List.mem_map]
+  constructor
+  · rintro (⟨_, ⟨f, hf, rfl⟩, hy⟩ | h)
+    · exact Or.inl ⟨f, hf, mem_grid.1 hy⟩
+    · exact Or.inr h
+  · rintro (⟨f, hf, h⟩ | h)
+    · exact Or.inl ⟨_, ⟨f, hf, rfl⟩, mem_grid.2 h⟩
+    · exact Or.inr h
+
+section Rows2
+set_option linter.unusedSectionVars false
+set_option linter.unusedSimpArgs false
+variable {α : Type} [Sub α] [OfNat α 0] [OfNat α 1]
+
+/-- a row is non-empty and all its targets are below `N` -/
+def RowOK (N : Nat) (row : List (Tr α)) : Prop := row ≠ [] ∧ ∀ t ∈ row, t.tgt < N
+
+theorem p2Row_ok {L W i j N : Nat} (hi : i < L) (hj : j < W) (b : Board) {offR offY : Nat}
+    (h1 : offR + L * W ≤ N) (h2 : offY + L * W ≤ N) :
+    RowOK (α := α) N (p2Row W b offR offY i j) := by
+  have hx := idx_lt hi hj
+  have hrow : i * W + W ≤ L * W := by
+    have := Nat.mul_le_mul_right W (show i + 1 ≤ L by omega); rwa [Nat.succ_mul] at this
+  have hrow2 : i < L - 1 → i * W + W + W ≤ L * W := by
+    intro h
+    have := Nat.mul_le_mul_right W (show i + 2 ≤ L by omega)
+    rw [Nat.add_mul] at this; omega
+  have hm : (j + 1) % W < W := Nat.mod_lt _ (by omega)
+  simp only [p2Row, RowOK]
+  repeat' split
+  all_goals simp [act, pr]
+  all_goals omega
+
+theorem downRow_ok {L W i j N : Nat} (hi : i < L) (hj : j < W) {off : Nat} {w : Option Nat}
+    (h1 : off + L * W ≤ N) (h2 : ∀ x, w = some x → x < N) :
+    RowOK (α := α) N (downRow L W off w i j) := by
+  have hx := idx_lt hi hj
+  have hrow : i * W + W ≤ L * W := by
+    have := Nat.mul_le_mul_right W (show i + 1 ≤ L by omega); rwa [Nat.succ_mul] at this
+  have hrow2 : i < L - 1 → i * W + W + W ≤ L * W := by
+    intro h
+    have := Nat.mul_le_mul_right W (show i + 2 ≤ L by omega)
+    rw [Nat.add_mul] at this; omega
+  have hm : (j + 1) % W < W := Nat.mod_lt _ (by omega)
+  cases w with
+  | none => simp [downRow, RowOK, act]; omega
+  | some x =>
+  have h3 := h2 x rfl
+  simp only [downRow, RowOK]
+  repeat' split
+  all_goals simp [act, pr]
+  all_goals omega
+
+theorem lrRow_ok {L W i j N : Nat} (hi : i < L) (hj : j < W) (b : Board) {offL offR : Nat}
+    (h1 : offL + L * W ≤ N) (h2 : offR + L * W ≤ N) :
+    RowOK (α := α) N (lrRow W b offL offR i j) := by
+  have hx := idx_lt hi hj
+  have hrow : i * W + W ≤ L * W := by
+    have := Nat.mul_le_mul_right W (show i + 1 ≤ L by omega); rwa [Nat.succ_mul] at this
+  have hrow2 : i < L - 1 → i * W + W + W ≤ L * W := by
+    intro h
+    have := Nat.mul_le_mul_right W (show i + 2 ≤ L by omega)
+    rw [Nat.add_mul] at this; omega
+  have hm : (j + 1) % W < W := Nat.mod_lt _ (by omega)
+  simp only [lrRow, lrPair, RowOK]
+  repeat' split
+  all_goals simp [act, pr]
+  all_goals omega
+
+theorem tileRow_ok {L W i j N : Nat} (hi : i < L) (hj : j < W) (p : α) (b : Board) {off lose : Nat}
+    (h1 : off + L * W ≤ N) (h2 : lose < N) :
+    RowOK (α := α) N (tileRow W p b off lose i j) := by
+  have hx := idx_lt hi hj
+  have hrow : i * W + W ≤ L * W := by
+    have := Nat.mul_le_mul_right W (show i + 1 ≤ L by omega); rwa [Nat.succ_mul] at this
+  have hrow2 : i < L - 1 → i * W + W + W ≤ L * W := by
+    intro h
+    have := Nat.mul_le_mul_right W (show i + 2 ≤ L by omega)
+    rw [Nat.add_mul] at this; omega
+  have hm : (j + 1) % W < W := Nat.mod_lt _ (by omega)
+  simp only [tileRow, RowOK]
+  repeat' split
+  all_goals simp [act, pr]
+  all_goals omega
+
+theorem rdRow_ok {L W i j N : Nat} (hi : i < L) (hj : j < W) (p : α) {off win : Nat}
+    (h1 : off + L * W ≤ N) (h2 : win < N) :
+    RowOK (α := α) N (rdRow L W p off win i j) := by
+  have hx := idx_lt hi hj
+  have hrow : i * W + W ≤ L * W := by
+    have := Nat.mul_le_mul_right W (show i + 1 ≤ L by omega); rwa [Nat.succ_mul] at this
+  have hrow2 : i < L - 1 → i * W + W + W ≤ L * W := by
+    intro h
+    have := Nat.mul_le_mul_right W (show i + 2 ≤ L by omega)
+    rw [Nat.add_mul] at this; omega
+  have hm : (j + 1) % W < W := Nat.mod_lt _ (by omega)
+  simp only [rdRow, RowOK]
+  repeat' split
+  all_goals simp [act, pr]
+  all_goals omega
+
+theorem rlRow_ok {L W i j N : Nat} (hi : i < L) (hj : j < W) (p : α) {off : Nat}
+    (h1 : off + L * W ≤ N) :
+    RowOK (α := α) N (rlRow W p off i j) := by
+  have hx := idx_lt hi hj
+  have hrow : i * W + W ≤ L * W := by
+    have := Nat.mul_le_mul_right W (show i + 1 ≤ L by omega); rwa [Nat.succ_mul] at this
+  have hrow2 : i < L - 1 → i * W + W + W ≤ L * W := by
+    intro h
+    have := Nat.mul_le_mul_right W (show i + 2 ≤ L by omega)
+    rw [Nat.add_mul] at this; omega
+  have hm : (j + 1) % W < W := Nat.mod_lt _ (by omega)
+  simp only [rlRow, RowOK]
+  repeat' split
+  all_goals simp [act, pr]
+  all_goals omega
+
+theorem rrRow_ok {L W i j N : Nat} (hi : i < L) (hj : j < W) (p : α) {off : Nat}
+    (h1 : off + L * W ≤ N) :
+    RowOK (α := α) N (rrRow W p off i j) := by
+  have hx := idx_lt hi hj
+  have hrow : i * W + W ≤ L * W := by
+    have := Nat.mul_le_mul_right W (show i + 1 ≤ L by omega); rwa [Nat.succ_mul] at this
+  have hrow2 : i < L - 1 → i * W + W + W ≤ L * W := by
+    intro h
+    have := Nat.mul_le_mul_right W (show i + 2 ≤ L by omega)
+    rw [Nat.add_mul] at this; omega
+  have hm : (j + 1) % W < W := Nat.mod_lt _ (by omega)
+  simp only [rrRow, RowOK]
+  repeat' split
+  all_goals simp [act, pr]
+  all_goals omega
+
+theorem dlrRow_ok {L W i j N : Nat} (hi : i < L) (hj : j < W) (b : Board) {offD offL offR : Nat}
+    (h1 : offD + L * W ≤ N) (h2 : offL + L * W ≤ N) (h3 : offR + L * W ≤ N) :
+    RowOK (α := α) N (dlrRow W b offD offL offR i j) := by
+  have hx := idx_lt hi hj
+  have hrow : i * W + W ≤ L * W := by
+    have := Nat.mul_le_mul_right W (show i + 1 ≤ L by omega); rwa [Nat.succ_mul] at this
+  have hrow2 : i < L - 1 → i * W + W + W ≤ L * W := by
+    intro h
+    have := Nat.mul_le_mul_right W (show i + 2 ≤ L by omega)
+    rw [Nat.add_mul] at this; omega
+  have hm : (j + 1) % W < W := Nat.mod_lt _ (by omega)
+  simp only [dlrRow, RowOK]
+  repeat' split
+  all_goals simp [act, pr]
+  all_goals omega
+
+theorem lightRow_ok {L W i j N : Nat} (hi : i < L) (hj : j < W) (p : α) {offOk offBreak : Nat}
+    (h1 : offOk + L * W ≤ N) (h2 : offBreak + L * W ≤ N) :
+    RowOK (α := α) N (lightRow W p offOk offBreak i j) := by
+  have hx := idx_lt hi hj
+  have hrow : i * W + W ≤ L * W := by
+    have := Nat.mul_le_mul_right W (show i + 1 ≤ L by omega); rwa [Nat.succ_mul] at this
+  have hrow2 : i < L - 1 → i * W + W + W ≤ L * W := by
+    intro h
+    have := Nat.mul_le_mul_right W (show i + 2 ≤ L by omega)
+    rw [Nat.add_mul] at this; omega
+  have hm : (j + 1) % W < W := Nat.mod_lt _ (by omega)
+  simp only [lightRow, RowOK]
+  repeat' split
+  all_goals simp [act, pr]
+  all_goals omega
+
+/-- shape of the rows of chance states: `[(1,t)]` or `[(p,t),(1-p,t')]` -/
+def ProbShape (q : Params α) (row : List (Tr α)) : Prop :=
+  (∃ t, row = [pr 1 t]) ∨
+  ∃ p t t', (p = q.pTile ∨ p = q.pRobot ∨ p = q.pLight) ∧ row = [pr p t, pr (1 - p) t']
+
+theorem tileRow_shape (q : Params α) {p : α} (hp : p = q.pTile ∨ p = q.pRobot ∨ p = q.pLight)
+    (W : Nat) (b : Board) (off lose i j : Nat) : ProbShape q (tileRow W p b off lose i j) := by
+  unfold tileRow; split
+  · exact Or.inr ⟨p, _, _, hp, rfl⟩
+  · exact Or.inl ⟨_, rfl⟩
+
+theorem rdRow_shape (q : Params α) {p : α} (hp : p = q.pTile ∨ p = q.pRobot ∨ p = q.pLight)
+    (L W off win i j : Nat) : ProbShape q (rdRow L W p off win i j) := by
+  unfold rdRow; split <;> exact Or.inr ⟨p, _, _, hp, rfl⟩
+
+theorem rlRow_shape (q : Params α) {p : α} (hp : p = q.pTile ∨ p = q.pRobot ∨ p = q.pLight)
+    (W off i j : Nat) : ProbShape q (rlRow W p off i j) := by
+  unfold rlRow; split <;> exact Or.inr ⟨p, _, _, hp, rfl⟩
+
+theorem rrRow_shape (q : Params α) {p : α} (hp : p = q.pTile ∨ p = q.pRobot ∨ p = q.pLight)
+    (W off i j : Nat) : ProbShape q (rrRow W p off i j) := by
+  unfold rrRow; split <;> exact Or.inr ⟨p, _, _, hp, rfl⟩
+
+theorem lightRow_shape (q : Params α) {p : α} (hp : p = q.pTile ∨ p = q.pRobot ∨ p = q.pLight)
+    (W offOk offBreak i j : Nat) : ProbShape q (lightRow W p offOk offBreak i j) :=
+  Or.inr ⟨p, _, _, hp, rfl⟩
+
+theorem gridGroups_getD_mem_drop {β : Type} (L W : Nat) (fs : List (Nat → Nat → β))
+    (tail : List β) (d : β) (k s : Nat) (hk : k ≤ fs.length) (h1 : k * (L * W) ≤ s)
+    (h2 : s < fs.length * (L * W) + tail.length) :
+    ((fs.map (grid L W)).flatten ++ tail).getD s d
+      ∈ ((fs.drop k).map (grid L W)).flatten ++ tail := by
+  have hl : ((fs.take k).map (grid L W)).flatten.length = k * (L * W) := by
+    have := gridGroups_length L W (fs.take k) []
+    rw [List.append_nil, List.length_take, Nat.min_eq_left hk] at this
+    simpa using this
+  have hsplit : (fs.map (grid L W)).flatten ++ tail
+      = ((fs.take k).map (grid L W)).flatten ++ (((fs.drop k).map (grid L W)).flatten ++ tail) := by
+    conv => lhs; rw [← List.take_append_drop k fs]
+    rw [List.map_append, List.flatten_append, List.append_assoc]
+  rw [hsplit, getD_append_right _ _ _ _ (by omega)]
+  apply getD_mem_of_lt
+  rw [gridGroups_length, List.length_drop, hl, Nat.sub_mul]
+  have := Nat.mul_le_mul_right (L * W) hk
+  omega
+
+theorem owners_prob_ge {n m1 mp e : Nat}
+    (h : (List.replicate n Owner.p2 ++ List.replicate m1 Owner.p1 ++ List.replicate mp Owner.prob
+        ++ [Owner.prob, Owner.prob]).getD e Owner.prob = Owner.prob) : n + m1 ≤ e := by
+  rw [owners_shape] at h
+  split at h
+  · exact absurd h (by decide)
+  · split at h
+    · exact absurd h (by decide)
+    · omega
+
+end Rows2
+
+section Rows3
+variable {α : Type} [Sub α] [OfNat α 0] [OfNat α 1]
+
+theorem tl_rows_ok {v : Variant} {L W : Nat} {b : Board} (hb : BoardOK L W b) (q : Params α) :
+    ∀ row ∈ (genGame v L W b q).tl, RowOK (nGroups v * (L * W) + 2) row := by
+  obtain ⟨hL, hW, -, -, -, -, -, -, hmv⟩ := hb
+  intro row hrow
+  cases v
+  · simp only [genGame] at hrow
+    rw [gameA_tl hmv, mem_gridGroups] at hrow
+    simp only [nGroups]
+    rcases hrow with ⟨f, hf, i, hi, j, hj, rfl⟩ | hrow
+    · simp only [rowsA, List.mem_cons, List.not_mem_nil, or_false] at hf
+      rcases hf with rfl | rfl | rfl | rfl
+      · apply p2Row_ok hi hj <;> omega
+      · apply downRow_ok hi hj
+        · omega
+        · intro x hx; cases hx; omega
+      · apply lrRow_ok hi hj <;> omega
+      · apply tileRow_ok hi hj <;> omega
+    · simp only [List.mem_cons, List.not_mem_nil, or_false] at hrow
+      rcases hrow with rfl | rfl <;> simp [RowOK, pr] <;> omega
+  · simp only [genGame] at hrow
+    rw [gameB_tl hmv, mem_gridGroups] at hrow
+    simp only [nGroups]
+    rcases hrow with ⟨f, hf, i, hi, j, hj, rfl⟩ | hrow
+    · simp only [rowsB, List.mem_cons, List.not_mem_nil, or_false] at hf
+      rcases hf with rfl | rfl | rfl | rfl | rfl | rfl | rfl
+      · apply p2Row_ok hi hj <;> omega
+      · apply downRow_ok hi hj
+        · omega
+        · intro x hx; cases hx
+      · apply lrRow_ok hi hj <;> omega
+      · apply tileRow_ok hi hj <;> omega
+      · apply rdRow_ok hi hj <;> omega
+      · apply rlRow_ok hi hj; omega
+      · apply rrRow_ok hi hj; omega
+    · simp only [List.mem_cons, List.not_mem_nil, or_false] at hrow
+      rcases hrow with rfl | rfl <;> simp [RowOK, pr] <;> omega
+  · simp only [genGame] at hrow
+    rw [gameC_tl hmv, mem_gridGroups] at hrow
+    simp only [nGroups]
+    rcases hrow with ⟨f, hf, i, hi, j, hj, rfl⟩ | hrow
+    · simp only [rowsC, List.mem_cons, List.not_mem_nil, or_false] at hf
+      rcases hf with rfl | rfl | rfl | rfl | rfl | rfl | rfl | rfl | rfl | rfl
+      · apply p2Row_ok hi hj <;> omega
+      · apply downRow_ok hi hj
+        · omega
+        · intro x hx; cases hx
+      · apply lrRow_ok hi hj <;> omega
+      · apply dlrRow_ok hi hj <;> omega
+      · apply tileRow_ok hi hj <;> omega
+      · apply rdRow_ok hi hj <;> omega
+      · apply rlRow_ok hi hj; omega
+      · apply rrRow_ok hi hj; omega
+      · apply lightRow_ok hi hj <;> omega
+      · apply lightRow_ok hi hj <;> omega
+    · simp only [List.mem_cons, List.not_mem_nil, or_false] at hrow
+      rcases hrow with rfl | rfl <;> simp [RowOK, pr] <;> omega
+
+theorem prob_rows_shape {v : Variant} {L W : Nat} {b : Board} (hb : BoardOK L W b) (q : Params α)
+    (s : Nat) (hs : s < nGroups v * (L * W) + 2)
+    (ho : (genGame v L W b q).owners.getD s .prob = .prob) :
+    ProbShape q ((genGame v L W b q).tl.getD s []) := by
+  obtain ⟨hL, hW, -, -, -, -, -, -, hmv⟩ := hb
+  have tailShape : ∀ (x y : Nat) (row : List (Tr α)), row ∈ [[pr 1 x], [pr 1 y]] →
+      ProbShape q row := by
+    intro x y row hrow
+    simp only [List.mem_cons, List.not_mem_nil, or_false] at hrow
+    rcases hrow with rfl | rfl <;> exact Or.inl ⟨_, rfl⟩
+  cases v
+  · simp only [genGame] at ho ⊢
+    have hge := owners_prob_ge ho
+    rw [gameA_tl hmv]
+    have hm := gridGroups_getD_mem_drop L W (rowsA L W b q.pTile)
+      [[pr 1 (L * W * 4)], [pr 1 (L * W * 4 + 1)]] [] 3 s (by simp [rowsA]) (by omega)
+      (by simp [rowsA, nGroups] at hs ⊢; omega)
+    rw [mem_gridGroups] at hm
+    rcases hm with ⟨f, hf, i, hi, j, hj, he⟩ | hm
+    · rw [he]
+      simp only [rowsA, List.drop_succ_cons, List.drop_zero, List.mem_cons, List.not_mem_nil,
+        or_false] at hf
+      subst hf
+      exact tileRow_shape q (Or.inl rfl) ..
+    · exact tailShape _ _ _ hm
+  · simp only [genGame] at ho ⊢
+    have hge := owners_prob_ge ho
+    rw [gameB_tl hmv]
+    have hm := gridGroups_getD_mem_drop L W (rowsB L W b q.pTile q.pRobot)
+      [[pr 1 (L * W * 7)], [pr 1 (L * W * 7 + 1)]] [] 3 s (by simp [rowsB]) (by omega)
+      (by simp [rowsB, nGroups] at hs ⊢; omega)
+    rw [mem_gridGroups] at hm
+    rcases hm with ⟨f, hf, i, hi, j, hj, he⟩ | hm
+    · rw [he]
+      simp only [rowsB, List.drop_succ_cons, List.drop_zero, List.mem_cons, List.not_mem_nil,
+        or_false] at hf
+      rcases hf with rfl | rfl | rfl | rfl
+      · exact tileRow_shape q (Or.inl rfl) ..
+      · exact rdRow_shape q (Or.inr (Or.inl rfl)) ..
+      · exact rlRow_shape q (Or.inr (Or.inl rfl)) ..
+      · exact rrRow_shape q (Or.inr (Or.inl rfl)) ..
+    · exact tailShape _ _ _ hm
+  · simp only [genGame] at ho ⊢
+    have hge := owners_prob_ge ho
+    rw [gameC_tl hmv]
+    have hm := gridGroups_getD_mem_drop L W (rowsC L W b q.pTile q.pRobot q.pLight)
+      [[pr 1 (L * W * 10)], [pr 1 (L * W * 10 + 1)]] [] 4 s (by simp [rowsC]) (by omega)
+      (by simp [rowsC, nGroups] at hs ⊢; omega)
+    rw [mem_gridGroups] at hm
+    rcases hm with ⟨f, hf, i, hi, j, hj, he⟩ | hm
+    · rw [he]
+      simp only [rowsC, List.drop_succ_cons, List.drop_zero, List.mem_cons, List.not_mem_nil,
+        or_false] at hf
+      rcases hf with rfl | rfl | rfl | rfl | rfl | rfl
+      · exact tileRow_shape q (Or.inl rfl) ..
+      · exact rdRow_shape q (Or.inr (Or.inl rfl)) ..
+      · exact rlRow_shape q (Or.inr (Or.inl rfl)) ..
+      · exact rrRow_shape q (Or.inr (Or.inl rfl)) ..
+      · exact lightRow_shape q (Or.inr (Or.inr rfl)) ..
+      · exact lightRow_shape q (Or.inr (Or.inr rfl)) ..
+    · exact tailShape _ _ _ hm
+
+end Rows3
+
+section Absorbing
+variable {α : Type} [Sub α] [OfNat α 0] [OfNat α 1]
+
+theorem enc_lose_eq (v : Variant) (L W : Nat) : enc v L W .lose = nGroups v * (L * W) := by
+  cases v <;> rfl
+
+theorem enc_win_eq (v : Variant) (L W : Nat) : enc v L W .win = nGroups v * (L * W) + 1 := by
+  cases v <;> rfl
+
+/-- the losing and the winning state are absorbing and carry no reward -/
+theorem lose_win_rows {v : Variant} {L W : Nat} {b : Board} (hb : BoardOK L W b) (q : Params α) :
+    (genGame v L W b q).tl.getD (nGroups v * (L * W)) [] = [pr 1 (nGroups v * (L * W))] ∧
+    (genGame v L W b q).tl.getD (nGroups v * (L * W) + 1) []
+      = [pr 1 (nGroups v * (L * W) + 1)] ∧
+    (genGame v L W b q).rewards.getD (nGroups v * (L * W)) 0 = 0 ∧
+    (genGame v L W b q).rewards.getD (nGroups v * (L * W) + 1) 0 = 0 := by
+  have h1 := tl_bisim hb q .lose (show Valid v L W b .lose from trivial)
+  have h2 := tl_bisim hb q .win (show Valid v L W b .win from trivial)
+  have h3 := rewards_bisim hb q (show Valid v L W b .lose from trivial)
+  have h4 := rewards_bisim hb q (show Valid v L W b .win from trivial)
+  rw [enc_lose_eq] at h1 h3
+  rw [enc_win_eq] at h2 h4
+  exact ⟨by simpa [rules, c, pr, enc_lose_eq] using h1, by simpa [rules, c, pr, enc_win_eq] using h2,
+    h3, h4⟩
+
+end Absorbing
+
 end CR.GridLemmas
